@@ -1,9 +1,10 @@
 (** C06 — missing and padded observations never influence any result.
     Property theorems only; models in Masked/Weighted.v, Masked/Pipeline.v, vocabulary in Masked/Observed.v,
-    proofs in Masked/*Proofs.v, non-vacuity examples in Masked/Examples.v. *)
+    memory phase of MCMC-SAEM on the noise statistics in Masked/Saem.v,
+    proofs in Masked/*Proofs.v, non-vacuity examples in Masked/Examples.v, Masked/SaemExamples.v. *)
 From Coq Require Import List NArith ZArith Bool Arith QArith.
 From Leaspy Require Import Base.Atoms Masked.Weighted Masked.Observed Masked.Pipeline
-     Masked.WeightedProofs Masked.ClosedProofs Masked.PipelineProofs.
+     Masked.WeightedProofs Masked.ClosedProofs Masked.PipelineProofs Masked.Saem Masked.SaemProofs.
 Import ListNotations.
 Local Close Scope Q_scope.
 Local Open Scope nat_scope.
@@ -130,3 +131,32 @@ Theorem C06_noise_padding : forall y w model k gy gm,
     ragree teq (noise_var_diagonal (wpad VISIT_POS k gy y) (tpad VISIT_POS k gm model)) (noise_var_diagonal y model).
 Proof. exact noise_padding. Qed.
 Print Assumptions C06_noise_padding.
+
+(** Noise estimates use observed entries only AFTER BURN-IN too.  `_maximization_step` hands to the update rules the
+    statistics stored by the last memory-less step and then blended, at each of [length steps] iterations with memory, with
+    the statistics of the current model tensor: v * (1.0 - e) + e * new — on y_x_model a blend of two WeightedTensors.
+    For EVERY number of memory iterations and every coefficients: if y changes under the mask (ANY atoms) and, at every
+    iteration, the model tensor changes at entries where y is not observed, both rules hand the same variance to
+    compute_std_from_variance (or the step fails with the same error). *)
+Theorem C06_noise_observed_only_after_burn_in : forall y y' m0 m0' steps steps',
+    wagree y y' -> magree y m0 m0' -> steps_agree y steps steps' ->
+    ragree teq (noise_var_scalar_saem y m0 steps) (noise_var_scalar_saem y' m0' steps') /\
+    ragree teq (noise_var_diagonal_saem y m0 steps) (noise_var_diagonal_saem y' m0' steps').
+Proof. exact noise_saem_observed_only. Qed.
+Print Assumptions C06_noise_observed_only_after_burn_in.
+
+(** ... because the averaged y_x_model still CARRIES the weights of y (and both statistics keep the shape of y),
+    whatever the number of memory iterations. *)
+Theorem C06_saem_statistics_carry_weights : forall y m0 steps s,
+    wf y -> shape m0 = shape (value y) -> Forall (fun st => shape (snd st) = shape (value y)) steps ->
+    saem_stats y m0 steps = Ok s ->
+    weight (s_yxm s) = weight y /\ shape (value (s_yxm s)) = shape (value y) /\ shape (s_mxm s) = shape (value y).
+Proof. exact saem_stats_carry_weights. Qed.
+Print Assumptions C06_saem_statistics_carry_weights.
+
+(** With no memory iteration these are the rules of C06_noise_observed_only / C06_noise_padding. *)
+Theorem C06_noise_saem_no_memory : forall y m0,
+    noise_var_scalar_saem y m0 [] = noise_var_scalar y m0 /\
+    noise_var_diagonal_saem y m0 [] = noise_var_diagonal y m0.
+Proof. exact noise_var_saem_nil. Qed.
+Print Assumptions C06_noise_saem_no_memory.
